@@ -109,6 +109,9 @@ def explore(name, harness=None, on_path=None, workers=None, time_limit=None, tim
         for k in total:
             total[k] += st.get(k, 0)
         acc.merge(a)
+        for t in st.get("smt2", ()):
+            if len(acc.smt2) < 60:
+                acc.smt2.append(t)
         return left
 
     pending = merge(_task((name, [], first_budget)))
